@@ -61,6 +61,10 @@ DECIDES += (' (IDENT, rules/fzero.py) every `return __Pyx_NewRef(opK)` shortcut 
             '{-inf, <0, -0.0, +0.0, >0, +inf, nan}; (FAST/modadj) a conditional floor adjustment of the float remainder is decided under its path conditions, every sign combination that '
             'needs the divisor added reaches one, and for float divisors the domain contains +-inf (a flag multiplied with the divisor gives 0 * inf = NaN).')
 NOT_DECIDED += (' IDENT decides the identity shortcuts only, not the arithmetic on the non-shortcut paths of PyNumberBinop (plain C double / PyLong slot calls), nor its subclass fallbacks.')
+DECIDES += (' (CMPSEL, rules/s8C02.py, round 8) PyLongCompare: for every admitted constant magnitude 1 .. cut-off (extracted from optimise_numeric_binop), PyLong_SHIFT 15 / 30 x sizeof(long) 4 / 8, '
+            'with the preprocessor conditions evaluated and the magnitudes partitioned by every threshold the selecting conditions distinguish, exactly one unrolled digit comparison is selected and it '
+            'requires the digit count of that magnitude; a selecting shift by >= the width of unsigned long is reported.')
+NOT_DECIDED += (' CMPSEL refuses (ANALYSIS-ERROR) selecting conditions on uintval other than `uintval >> n` / comparisons with a constant.')
 ASSUMPTIONS = ['C long has at least 32 bits and long long at least 64 bits (C11 5.2.4.2.1); PyLong_SHIFT is 15 or 30 (CPython longintrepr.h)',
                'the special method reached by PyNumber_<Op>/PyObject_RichCompare in the interpreter running the check is the one the target CPython uses',
                'ZDIV: the node handed to optimise_numeric_binop by the operator handlers is the binop node itself, and its result type is a Python object '
@@ -114,6 +118,7 @@ MUTATIONS = [   # (file, single edit, rule that reported it) -- all run on a scr
     ('behaviour-preserving (all silent)', "ok-cop-rows-reordered, ok-sign-rewrite (conditional expression, !IsNeg), ok-zero-branches-reordered, ok-py-order-rewrite (conditional "
                                           "expressions + a second isinstance()-defined local: made enumerate_decider give up before this round - fixed), ok-cmp-rewrite, "
                                           "ok-float-neg-rewrite, ok-explicit-goto", 'silent'),
+    ('Cython/Utility/Optimize.c', "round 8 (seed C02k): cmpsel-{pp-offbyone,shift-plus-one,gt-base,ascending,two-blocks-only,size-shifted,pp-guard-removed}; silent: ok-cmpsel-{ge-base,three-blocks,pp-bits}", 'C02-CMPSEL'),
     ('behaviour-preserving (all silent)', "rename local numval -> constant_node; cut-off rewritten `not (abs(c) <= 1 << 30)`; rows of the c_op dict reordered; "
                                           "DivInt copy with renamed locals and `q = q - ...`; head-room +30 -> +20; shift guards merged into one positive `if ... and 0 < c < 64`; "
                                           "two handler methods reordered with an extra local", 'silent'),
@@ -672,6 +677,10 @@ def run(ctx):
     # ------------------------------------------------------------------------------------------ ZDIV (rules/sC02.py)
     rules.append(sC02.rule_zdiv(ctx, fn, fvar, points, trees, cop, capi_dunder))
     rules.append(sC02.rule_fast(ctx, points, trees))
+    # round 8: the digit comparison SELECTED for every admitted constant has that constant's digit count (seed C02k)
+    from ..rules import s8C02
+    _target = lambda n: isinstance(n, ast.Call) and _call_name(n) in ('load_cached', 'load')
+    rules.append(s8C02.rule_cmpsel(ctx, points, trees, lambda op: admitted_maximum(fn, fvar, _target, op, [2 ** 31, 2 ** 63])[0]))
     rules.append(sC02.rule_order(ctx, fn, fvar, points, trees))
     rules.append(sC02.rule_join(ctx))
     rules.append(sC02.rule_mant(ctx, points, trees))
